@@ -46,7 +46,10 @@ TokClass(toks, r) ==
     ELSE IF r.at \in DOMAIN toks /\ toks[r.at].k # toks[r.at].k16 THEN ":mod65536"
     ELSE IF r.why = "duplicate" /\ r.at \in DOMAIN toks /\ toks[r.at].k \in {"8", "9", "35"} THEN ":preamble"
     ELSE ""
-LoneLength(toks) == \E i \in DOMAIN toks : toks[i].t = "len" /\ (i = Len(toks) \/ toks[i + 1].t # "data")
+\* t = "len": Length field that the schema pairs with a data field; "lone": Length typed field without partner
+LoneLength(toks) == \E i \in DOMAIN toks : toks[i].t = "lone"
+\* a paired Length field that is not followed by a data field: C04 is silent, acceptance is not demanded
+PairBroken(toks) == \E i \in DOMAIN toks : toks[i].t = "len" /\ (i = Len(toks) \/ toks[i + 1].t # "data")
 
 MonStrict(e) ==
     LET S == Schemas[cur.schema]
@@ -64,7 +67,7 @@ MonStrict(e) ==
                              ELSE IF \A x \in miss \cup extra : x.k = "8" THEN "beginstring"
                              ELSE IF \A x \in miss \cup extra : x.k = "9" THEN "bodylength"
                              ELSE "unexplained"))
-    ELSE IF e.res = "exc" /\ full.ok /\ e.wf THEN
+    ELSE IF e.res = "exc" /\ full.ok /\ e.wf /\ ~PairBroken(e.toks) THEN
         Fail("rejected_conforming", "rejected:" \o (IF LoneLength(e.toks) THEN "lone_length_field" ELSE "unexplained"))
     ELSE Pass
 
